@@ -1363,6 +1363,39 @@ impl RLN {
     }
 }
 
+/// Verification hook (feature `zerokit_verif`, off by default): assembles an [`RLN`] instance from
+/// already-built parts, without parsing the bundled key material. Used by the harnesses under /verif.
+#[cfg(all(feature = "zerokit_verif", not(target_arch = "wasm32")))]
+impl RLN {
+    #[cfg(not(feature = "stateless"))]
+    pub fn verif_from_parts(
+        proving_key: (ProvingKey<Curve>, ConstraintMatrices<Fr>),
+        verification_key: VerifyingKey<Curve>,
+        graph_data: Vec<u8>,
+        tree: PoseidonTree,
+    ) -> RLN {
+        RLN {
+            proving_key,
+            verification_key,
+            graph_data,
+            tree,
+        }
+    }
+
+    #[cfg(feature = "stateless")]
+    pub fn verif_from_parts(
+        proving_key: (ProvingKey<Curve>, ConstraintMatrices<Fr>),
+        verification_key: VerifyingKey<Curve>,
+        graph_data: Vec<u8>,
+    ) -> RLN {
+        RLN {
+            proving_key,
+            verification_key,
+            graph_data,
+        }
+    }
+}
+
 #[cfg(not(target_arch = "wasm32"))]
 impl Default for RLN {
     fn default() -> Self {
